@@ -1309,6 +1309,8 @@ class Interp(object):
             return self.lib.num_attr(self, o, name, node)
         if isinstance(o, Types):
             return self.lib.types_attr(self, o, name, node)
+        if isinstance(o, Mask) and name == 'shape':
+            return Obj('shape', {'arr': o})
         if isinstance(o, Const) and isinstance(o.v, str):
             hook = self.str_methods.get(name)
             if hook is not None:
@@ -1689,6 +1691,9 @@ class Interp(object):
             return ('slice', lo_i, th)
         if idx[0] == 'tuple':
             parts = [self.classify_array_index(i, node) for i in idx[1]]
+            if len(parts) == 2 and parts[0] == ('all',) and idx[1][0][0] == 'value' and isinstance(idx[1][0][1], Const) \
+                    and idx[1][0][1].v is Ellipsis and parts[1][0] in ('slice', 'all'):
+                return parts[1]         # x[..., a:b] : the last (for a pair function: the only) axis
             if len(parts) == 3 and parts[0] == ('all',) and parts[1][0] == 'atlabel' and parts[2][0] == 'atlabel':
                 return ('entry', parts[1][1], parts[2][1])
             if len(parts) == 3 and parts[0] == ('all',) and parts[1][0] == 'at' and parts[2][0] == 'at':
